@@ -1,13 +1,21 @@
 use amverif::engine::driver::{install_panic_hook, replay_file, run_property, Ctx, Tier};
 use amverif::props;
 
+#[global_allocator]
+static GLOBAL: amverif::engine::alloc::Counting = amverif::engine::alloc::Counting;
+
 fn main() {
     let args: Vec<String> = std::env::args().collect();
+    if args.len() >= 2 && args[1] == "--worker" {
+        install_panic_hook();
+        amverif::engine::worker::worker_main(amverif::props::bytes::run_target);
+    }
     if args.len() < 3 {
         eprintln!("usage: amverif <ID> quick|thorough | amverif <ID> --replay <path>");
         std::process::exit(2);
     }
     install_panic_hook();
+    amverif::engine::worker::register(amverif::props::bytes::run_target);
     let id = args[1].to_uppercase();
     let seed: u64 = std::env::var("VERIF_SEED").ok().and_then(|s| s.parse().ok()).unwrap_or(1);
     if args[2] == "--replay" {
